@@ -9,6 +9,36 @@ CHECKS = {
  "C09": dict(engine="E+P", design="5/C09",
    technique="explicit-state BFS over operation histories of the real FSA object vs a set model (state de-duplication incl. list-aliasing pattern); exhaustive enumeration of kbmag tables",
    text="All operation histories up to the stated depth over a 3-vertex/2-label (thorough: also 3-label and 4-vertex) universe, from every construction route, are executed on real FSA objects; in every reached state the three views are compared with a set model. All kbmag tables with <=2 (thorough 3) states x spacing/interval styles are parsed and compared. Bounded-exhaustive: no history within the bound is skipped."),
+ "C01": dict(engine="E+P", design="5/C01",
+   technique="explicit-state BFS on the graph of models (read coords in m', rebuild the point) against closed-form chart/metric oracles; exhaustive pairs/triples of a Klein lattice for the metric laws",
+   text="States (dimension 1..4 (thorough 5), lattice point incl. ideal ones, model, homogeneous representative) are explored breadth-first through all 25 model-to-model transitions to depth 2 (thorough 3); in every state all five charts must equal the oracle chart. All ordered pairs x 81 (model, representative) combinations are checked against the five closed-form metrics, symmetry, d(x,x)=0 (not NaN), all triples for the triangle inequality, every composite shape of rank<=3 per unit."),
+ "C02": dict(engine="E+P", design="5/C02",
+   technique="Cayley-graph BFS over words of constructed isometries and inverses (state de-duplication on the rounded matrix), invariant = Minkowski form / distance / light-cone class preservation",
+   text="Every isometry constructor named in the property is enumerated over its finite parameter alphabet (incl. all integer 2x2 matrices with entries in [-2,2], det +-1; all hyperbolic triangle triples over {2..7,inf}; lattice normals incl. symmetric ones) in dimensions 2..4 (thorough 5); products of <=2 (thorough 3) generators/inverses are explored breadth-first; in every state M J M^T = J, inv() = J M^T J, pairwise distances of lattice points and the timelike/lightlike/spacelike class of test vectors are preserved."),
+ "C03": dict(engine="E+P", design="5/C03",
+   technique="BFS over words of transformations applied to every object class/shape (exact integer and Gaussian-integer alphabets; isometry alphabet with projective row comparison), plus exhaustive words of representations against the column-vector oracle",
+   text="For every (dimension, class, composite shape, field) root, words of <=2 (thorough 3) alphabet transformations are applied; in every state sequential image = oracle image = image under the product, identity and inv() laws (also for products whose factors already answered inv()), class/shape preserved, derived data recomputed by the oracle. All words of length <=4 (thorough 6) over {a,b,A,B} of projective and hyperbolic representations act on points as the oracle column-vector product; bulk accessors agree with rep[w] for every assignment order/dtype mix."),
+ "C04": dict(engine="E+P", design="5/C04",
+   technique="bounded-exhaustive enumeration of (class, object shape, transformation shape, broadcast mode, dimension) against the NumPy-broadcast / outer-product index-map oracle; BFS over shape histories with an 'ndarray of unit labels' model",
+   text="Every ordered pair of composite shapes of rank<=2 plus three rank-3 shapes (thorough: all rank<=3) x 10 classes x 3 broadcast modes x n in {2,3}: result shape and every entry (primary and auxiliary data) equal the per-unit application with the property's axis order; every vectorised geometric routine equals the Python loop over units for every shape; reshape/flatten/index/iterate/stack histories to depth 2 (thorough 3) preserve units and order."),
+ "C11": dict(engine="E", design="5/C11",
+   technique="explicit-state BFS over object histories {copy, apply, apply-composite, apply-pairwise, reshape, flatten, index, setitem, stack, combine, astype, queries} on real objects vs expected primary data; invariant: derived data = oracle recomputation, retained objects and caller arrays unchanged",
+   text="All histories up to depth 3 (thorough 4) on hyperbolic Polygon/Segment/TangentVector, segments with ideal endpoints and projective Polygon in composite shapes (), (2,), (2,2): in every state aux_data equals both type(obj)(proj_data).aux_data and an independent oracle recomputation; every object left behind and every array the caller handed in is projectively unchanged; every read-only query is executed one at a time with the same invariant."),
+ "C13": dict(engine="P", design="5/C13",
+   technique="bounded-exhaustive enumeration of lattice points/pairs/triples x representatives x signed distances x orientation flags, and of regular-polygon parameter tables, against closed-form hyperbolic oracles",
+   text="All lattice points x 4 homogeneous representatives x force_oriented for origin_to; all ordered pairs for tangent-vector transport, point_along over six signed distances (distance, collinearity, side), unit_tangent_towards arriving at the target for all 16 representative pairs; all triples for the angle vs the law of cosines; regular polygons with 3..12 sides x 5 angles + 3 radii (and dimension 3; thorough 4, 5): equal radii, sides, interior angle, mutually inverse formulas."),
+ "C14": dict(engine="P", design="5/C14",
+   technique="bounded-exhaustive enumeration of ordered pairs of interior/ideal lattice points x model x unit x construction, horosphere (centre, reference) pairs and ideal-basis subsets, against Klein-chord / circle / horocircle oracles",
+   text="Every ordered pair of distinct lattice points (n=2: angles; n=3,4: spheres) in both conformal models: ideal endpoints lightlike and Klein-collinear, circle through the endpoints orthogonal to the boundary, the counter-clockwise arc sampled at 9 parameters lies on the hyperbolic segment; straight-line limits report a non-finite/huge radius; composite segment arrays equal their units; all horospheres and horosphere arcs; all (k+1)-subsets of the ideal alphabet as subspace bases."),
+ "C15": dict(engine="P", design="5/C15",
+   technique="bounded-exhaustive enumeration of spacelike lattice normals x layouts, walls given by ideal bases, non-reflections, Coxeter reflections and conjugates of standard isometries (single and composite), against the closed-form reflection and an orbit-iteration oracle",
+   text="All lattice normals of {-1,-0.4,0,0.5,1.2}^(n+1) with Minkowski norm > 0.2 (n=2,3; n=4 sub-lattice/thorough full) plus generic ones: reflection is the closed-form involution, fixes the wall, from_reflection returns the wall; non-reflections are rejected; conjugates of rotations/loxodromics/parabolics by origin_to of every lattice point: fixed points fixed, in the closed ball, attracting end first; arrays of isometries equal their units. One open finding (F12) is reported as KNOWN-FINDING."),
+ "C16": dict(engine="P", design="5/C16",
+   technique="bounded-exhaustive enumeration of dyadic (Gaussian-)rational coordinate products x dimension x chart x layout x rescaling, complete small alphabets of linear maps/translations/normals, all transverse subspace pairs (exact rank), integer-conjugated diagonal matrices",
+   text="Dimension 1..5, every chart, row/column layout, real and complex fields: chart slot exactly 1, exact round trip under rescaling, outside-chart reported iff the chart coordinate is exactly zero (incl. purely imaginary and tiny non-zero values); affine_linear_map / affine_translation / hyperplane_coordinate_transform act in the chart as the oracle for every alphabet element; Subspace.intersect lies in both with the right dimension for every transverse pair, elementwise and pairwise; eigenvector/diagonalize on exact eigen-data."),
+ "C18": dict(engine="P", design="5/C18",
+   technique="bounded-exhaustive enumeration of signatures x unimodular conjugates x ordered row subsets with non-zero leading Gram minors (exact integer arithmetic), all small integer matrices for kernel, integer point tuples for spheres, full angle-pair grids for the arc helpers",
+   text="All forms of signature (p,q), p+q<=4 (thorough 6), diagonal and unimodularly conjugated; every admissible ordered row subset: orthogonalize / find_isometry / find_definite_isometry / orthogonal_complement contracts incl. inputs whose kernel completion meets null vectors; diagonalize_form in every ordering with inverse; kernel of every integer matrix of the small shapes with exact rank; sphere_through vs exact circumcentres; short_arc / right_to_left / arc_include on all pairs (triples) of a 29-angle grid at batch rank 0..2."),
  "C12": dict(engine="P", design="5/C12",
    technique="bounded-exhaustive enumeration of (entry point x value x packaging) and (geometric function x lattice input x per-unit rescaling pattern in {1,-1,2.5,-0.3}^units), metamorphic oracle between runs plus closed-form formulas",
    text="Every documented scalar/array entry point is called with every packaging of each table value (Python/NumPy scalars, 0-d arrays, lists, tuples, float32, integer packagings of integral values, Coxeter labels incl. infinite ones) and must give the same floating, usable result as the float64 packaging (and the closed-form value where one exists); README/docstring snippets are executed literally. Every listed geometric function is evaluated on every lattice input under every per-unit rescaling pattern and compared with the unscaled output. Complete over the stated tables; one NumPy version only."),
